@@ -67,6 +67,10 @@ pub fn scenarios() -> Vec<Script> {
         Script { name: "live timer of a finished search, then a depth-limited search".into(), lines: vec![n(&p0), n("go movetime 1 depth 1"), w(&p1), w("go depth 1"), w("quit")] },
         Script { name: "ucinewgame mid-search".into(), lines: vec![n(&p0), n("go infinite"), n("ucinewgame"), w(&p1), w("go depth 1"), w("quit")] },
         Script { name: "quit mid-search".into(), lines: vec![n(&p0), n("go infinite"), n("quit")] },
+        // a `go` on a finished game (the side to move is checkmated / stalemated) is answered with `bestmove none`; the
+        // session must then be as ready for the next game as after any other answer
+        Script { name: "go on a checkmated position, then the next game".into(), lines: vec![n("position fen 7k/6Q1/6K1/8/8/8/8/8 b - - 0 1"), n("go depth 2"), w(&p1), w("go depth 1"), w("show"), w("quit")] },
+        Script { name: "go on a stalemated position, then the next game".into(), lines: vec![n("position fen 7k/5Q2/6K1/8/8/8/8/8 b - - 0 1"), n("go movetime 1"), w(&p1), w("go depth 1"), w("quit")] },
         // the engine must leave on `quit` / end of input also when the search it abandons has a limit of its own that
         // is far away (a depth it will not reach for hours): nobody is left to stop it, so waiting for it is a hang
         Script { name: "quit during a depth-limited search far from its limit".into(), lines: vec![n("position startpos"), n("go depth 40"), n("quit")] },
@@ -196,7 +200,9 @@ pub fn oracle(e: &Exec) -> Option<String> {
                 if let Some(Some(fen)) = go_positions.get(which_go) {
                     let mv = text.split_whitespace().nth(1).unwrap_or("");
                     let legal = legal_in(fen);
-                    if !legal.iter().any(|m| m == mv) {
+                    // a finished game (no legal move) is answered with `bestmove none`, and only a finished game is
+                    let right = if legal.is_empty() { mv == "none" } else { legal.iter().any(|m| m == mv) };
+                    if !right {
                         return Some(format!("`{}` is not a legal move of the position the go was asked about ({}; legal {:?})", text, fen, legal));
                     }
                 }
@@ -240,6 +246,10 @@ pub fn oracle(e: &Exec) -> Option<String> {
             }
             let toks: Vec<&str> = gtext.split_whitespace().collect();
             if toks.iter().any(|x| matches!(*x, "movetime" | "wtime" | "btime" | "winc" | "binc")) {
+                continue;
+            }
+            // a finished game (or a single legal reply) is answered without any iteration: that is the search's own end
+            if text.trim() == "bestmove none" {
                 continue;
             }
             let ended_by_command = log[*gi..bi].iter().any(|x| matches!(x, Ev::Consume(l) if matches!(l.split_whitespace().next(), Some("stop") | Some("ucinewgame") | Some("quit"))));
@@ -420,7 +430,7 @@ pub fn explore_script(s: &Script, bound: usize, oracle_fn: &dyn Fn(&Exec) -> Opt
         let class: String = v.split(|c| c == ':' || c == '(' || c == '[').next().unwrap_or(v).trim().to_string();
         acc.violation(
             format!("{}|{}|{}", prop_tag, class, s.name),
-            format!("{} [script: {}; schedule: non-default choices at decisions {:?} of {}; {} of {} explored schedules fail]", v, s.lines.iter().map(|l| l.text.as_str()).collect::<Vec<_>>().join(" / "), sch.iter().enumerate().filter(|(_, c)| **c != 0).map(|(i, c)| (i, *c)).collect::<Vec<_>>(), sch.len(), r.n_violations, r.executions),
+            format!("{} [script: {}; schedule: non-default choices at decisions {:?} of {}; {}{} of {} explored schedules fail]", v, s.lines.iter().map(|l| l.text.as_str()).collect::<Vec<_>>().join(" / "), sch.iter().enumerate().filter(|(_, c)| **c != 0).map(|(i, c)| (i, *c)).collect::<Vec<_>>(), sch.len(), if r.n_violations >= 8 { "at least " } else { "" }, r.n_violations, r.executions),
             json::obj(vec![("kind", json::s("e5-schedule")), ("script", script_json(s)), ("schedule", J::Arr(sch.iter().map(|c| json::i(*c)).collect())), ("bound", json::i(bound))]),
         );
     }
@@ -720,7 +730,7 @@ pub fn run(tier: &str, seed: i64) -> Outcome {
     let acc = run_workers(&self_exe(), args, 16);
     let n = all_scripts(tier).len();
     let bound = if tier == "quick" { 2 } else { 3 };
-    let reports = vec![SpaceReport { name: format!("E5: {} scripts (all words of length <= {} over the 9-command alphabet after `position P0`, eager and reactive GUI, plus 14 (quick) / 15 scenario scripts) x all interleavings with deviation cost <= {}", n, if tier == "quick" { 3 } else { 4 }, bound), states: acc.states, exhaustive: !acc.counts.contains_key("scripts whose exploration hit the execution cap (not exhaustive for them)"), note: format!("[{:.1}s, 16 worker processes]", t0.elapsed().as_secs_f64()) }];
+    let reports = vec![SpaceReport { name: format!("E5: {} scripts (all words of length <= {} over the 9-command alphabet after `position P0`, eager and reactive GUI, plus 16 (quick) / 17 scenario scripts) x all interleavings with deviation cost <= {}", n, if tier == "quick" { 3 } else { 4 }, bound), states: acc.states, exhaustive: !acc.counts.contains_key("scripts whose exploration hit the execution cap (not exhaustive for them)"), note: format!("[{:.1}s, 16 worker processes]", t0.elapsed().as_secs_f64()) }];
     let (mut acc, mut reports) = (acc, reports);
     let t1 = std::time::Instant::now();
     let deep = deep_sessions(tier);
